@@ -235,6 +235,14 @@ def unpriv(mon, spec):
                     target += 1 if target != 0x0FFD else 2
             else:
                 target = rng.choice([0x100, 0x4000, 0x5000]) if is_store or rng.random() < 0.5 else 0x2004
+            if rn == 13:
+                # the SP is kept word aligned by the state generator: use word-aligned targets that stay inside the intended area
+                if background:
+                    target = rng.choice([0x100, 0x104, 0x4000, 0x5000, 0x6000, 0x6804, 0x3000, 0x10800, 0x11000])
+                elif protected:
+                    target = rng.choice([0x1000, 0x1004, 0x1800, 0x1FF0] + ([0x11800, 0x11C00] if is_store else []))
+                else:
+                    target &= ~3
             imm = rng.choice([0, 0, 4, 8]) & immmask
             w = base | imm
             regs = [None] * 15
